@@ -27,7 +27,18 @@ def pool(rng, n):
     out += [FmtStr(Chunk("ab")), FmtStr(Chunk("a"), Chunk("b")), FmtStr(Chunk("a"), Chunk(""), Chunk("b")), FmtStr(Chunk("ab", {"fg": 31})),
             FmtStr(Chunk("a", {"fg": 31}), Chunk("b", {"fg": 31})), FmtStr(Chunk("ab", {"bold": False})), FmtStr(Chunk("", {"bg": 44}), Chunk("x")),
             FmtStr(Chunk("x")), FmtStr(), FmtStr(Chunk("")), FmtStr(Chunk("", {"fg": 34}))]
-    return out
+    # values derived through the public API from values that were already rendered / compared (caches filled)
+    from bounded.common import fill_caches
+    derived = []
+    for f in out[:60] + out[-11:]:
+        fill_caches(f)
+        for mk in (lambda f: f.copy_with_new_atts(bold=True), lambda f: fmtstr(f, "blue"), lambda f: f.new_with_atts_removed("fg"),
+                   lambda f: f + "x", lambda f: f[0:1], lambda f: f.copy(), lambda f: fmtstr(f, underline=False)):
+            try:
+                derived.append(mk(f))
+            except Exception:
+                pass
+    return out + derived
 
 
 def bounded(check, tier, seed):
